@@ -218,9 +218,10 @@ PROPS = {
             dict(run="pkg/zzc19.VerifC19Memkv", quick=dict(preempt=2), thorough=dict(preempt=3), covers=["done"], race=True, race_replay=True, stress=40),
             dict(run="pkg/zzc19.VerifC19MemkvTTL", quick=dict(preempt=1, native_timer_ms=1300), thorough=dict(preempt=2, native_timer_ms=1300), covers=["done"], race=True, race_replay=True, stress=10),
             dict(run="pkg/zzc19.VerifC19Backend", quick=dict(preempt=1), thorough=dict(preempt=2), covers=["done"], race=True, race_replay=True, stress=40),
+            dict(run=B + "VerifC19HubOverflow", quick=dict(preempt=1), thorough=dict(preempt=2), covers=["done"], race=True, race_replay=True, stress=40),
             dict(run="pkg/zzc19.VerifC19FullBatch", quick=dict(writes=301, _loop=700), thorough=dict(writes=601, _loop=1300), covers=["done"], race=True, race_replay=True, stress=5),
         ],
-        bounds=dict(quick="happens-before (vector clock) monitor over the explored schedules of: reader ∥ writer ∥ iterator on the in-memory engine (<= 2 delays); TTL expiry (timer goroutine) ∥ reader ∥ iterator (<= 1 delay); update ∥ {get, watch} / {list, count} / {compact, compact} on one node over the real in-memory adapter with the sequencer and fan-out threads in the schedule (<= 1 delay); one slow write holding the lowest pending revision while a full broadcast batch (300 events) of later writes completes, then one more write, with one watch (default schedule)",
+        bounds=dict(quick="happens-before (vector clock) monitor over the explored schedules of: reader ∥ writer ∥ iterator on the in-memory engine (<= 2 delays); TTL expiry (timer goroutine) ∥ reader ∥ iterator (<= 1 delay); update ∥ {get, watch} / {list, count} / {compact, compact} on one node over the real in-memory adapter with the sequencer and fan-out threads in the schedule (<= 1 delay); one slow write holding the lowest pending revision while a full broadcast batch (300 events) of later writes completes, then one more write, with one watch (default schedule); the fan-out dropping an overflowing subscriber ∥ a new watch registering ∥ a watch being cancelled (<= 1 delay); maps are one abstract location each",
                     thorough="one more delay each; two full batches"),
         outside="Badger / TiKV client internals; the skiplist's internals (one abstract location per list); the Go memory model beyond happens-before; request mixes other than the listed ones; the retry loop and the election goroutine",
         assumptions=["the verdict is a happens-before computation on each explored schedule: the solver only decides which paths are feasible (weakest fit for the technique, see DESIGN.md C19)"],
